@@ -10,19 +10,19 @@ import (
 )
 
 var (
-	fProp    = flag.String("sim.prop", "", "property id")
-	fTier    = flag.String("sim.tier", "quick", "quick|thorough")
-	fSeed    = flag.Uint64("sim.seed", 1, "VERIF_SEED")
-	fShard   = flag.Int("sim.shard", 0, "shard index")
-	fShards  = flag.Int("sim.shards", 1, "number of shards")
-	fMax     = flag.Int("sim.max", 0, "total run target over all shards (0: until exhausted/budget)")
-	fBudget  = flag.Duration("sim.budget", time.Minute, "wall budget of this worker")
-	fOut     = flag.String("sim.out", "", "result file")
-	fReplay  = flag.String("sim.replay", "", "replay file to execute")
-	fShrink  = flag.String("sim.shrink", "", "replay file to minimise (rewritten in place to -sim.out)")
-	fDigests = flag.Bool("sim.digests", false, "record per-run digests")
+	fProp     = flag.String("sim.prop", "", "property id")
+	fTier     = flag.String("sim.tier", "quick", "quick|thorough")
+	fSeed     = flag.Uint64("sim.seed", 1, "VERIF_SEED")
+	fShard    = flag.Int("sim.shard", 0, "shard index")
+	fShards   = flag.Int("sim.shards", 1, "number of shards")
+	fMax      = flag.Int("sim.max", 0, "total run target over all shards (0: until exhausted/budget)")
+	fBudget   = flag.Duration("sim.budget", time.Minute, "wall budget of this worker")
+	fOut      = flag.String("sim.out", "", "result file")
+	fReplay   = flag.String("sim.replay", "", "replay file to execute")
+	fShrink   = flag.String("sim.shrink", "", "replay file to minimise (rewritten in place to -sim.out)")
+	fDigests  = flag.Bool("sim.digests", false, "record per-run digests")
 	fAttempts = flag.Int("sim.attempts", 1, "replay attempts")
-	fTmp     = flag.String("sim.tmp", "", "scratch directory of this process")
+	fTmp      = flag.String("sim.tmp", "", "scratch directory of this process")
 )
 
 func TestMain(m *testing.M) {
